@@ -223,10 +223,12 @@ def cli_names(chk, rng, n, stats):
     from sandbox import Sandbox
     name_chars = list("ab xyzAZ09_-.,;()=!#&+@[]^~'{}|{}|") + ["é", "漢", "\\"]
     for i in range(n):
-        kind = rng.randrange(3)
+        kind = rng.randrange(4)
         s = "".join(rng.choice(name_chars) for _ in range(rng.randrange(1, 10)))
-        if s.endswith("\\") or s.strip(" .") == "" or s != s.strip(" "):
-            continue
+        if s.endswith("\\") or s.strip(" .") == "":
+            continue          # (blanks at either end of the name are text like any other)
+        if kind == 1 and s[0] == "\\":
+            continue          # the one-character string '\\' ends in a backslash: outside the property's domain (and F31's family)
         if kind == 0:
             tree, expect = [("raw", s)], s
         elif kind == 1:
@@ -234,10 +236,14 @@ def cli_names(chk, rng, n, stats):
             tree = [("tag", None, "Pad", [("i", len(s) + pad), ("s", s[0])], [("left", ("b", True))],
                      [("raw", s[1:])])] if len(s) > 1 else [("raw", s)]
             expect = s[0] * (pad + 1) + s[1:] if len(s) > 1 else s
-        else:
+        elif kind == 2:
             tree = [("raw", s), ("tag", None, "Strip", [("s", s)], [], [("raw", s + "x" + s)])]
             stripped = (s + "x" + s).strip(s)
             expect = s + stripped
+        else:
+            # an EMPTY context is a context: the nesting written in the template is the nesting the tag sees
+            tree = [("raw", s), ("tag", None, "Upper", [], [], []), ("tag", None, "Pad", [("i", 3), ("s", "0")], [("left", ("b", True))], [])]
+            expect = s + "000"
         if "/" in expect or "\x00" in expect or len(expect.encode("utf-8", "replace")) > 200 or expect in (".", ".."):
             continue
         sty = gen_style(rng)
